@@ -47,40 +47,26 @@ Theorem C17_counters_fixed : forall s,
 Proof. exact check1_counters_fixed. Qed.
 Print Assumptions C17_counters_fixed.
 
-(* Full statement (FALSE of the code as written, finding C17-F1 / D16):
-     forall s, rows_unique s -> snd (check1 (fst (check1 s true)) false) = [].
-   Witness d16_state: an intact item, a stray file in 3/4/ and an empty directory 5/6/; the first check
-   removes the stray file and the leaves 4 and 6, the second check reports 3 and 5 as empty. *)
-Theorem C17_converges_refuted : exists s, rows_unique s /\ snd (check1 (fst (check1 s true)) false) <> [].
-Proof. exact converges_refuted. Qed.
-Print Assumptions C17_converges_refuted.
+(* a second check after check(fix=True) reports nothing, for every damaged state.  (Before commit 63db292 the
+   empty-directory repair was os.rmdir and this was false: finding D16, now `fixed:`; the exact residue of
+   that version is CheckFacts.second_check_rmdir, its witness d16_state / d16_second_rmdir.) *)
+Theorem C17_converges : forall s, rows_unique s -> snd (check1 (fst (check1 s true)) false) = [].
+Proof. exact check1_converges. Qed.
+Print Assumptions C17_converges.
 
-(* what the second check reports, exactly: the first-level directories that have sub-directories but in
-   which nothing (no file of a row, no database file) survives the repair *)
-Theorem C17_second_check : forall s, rows_unique s ->
-  snd (check1 (fst (check1 s true)) false) = map WEmptyDir (cascade_dirs s).
-Proof. exact second_check. Qed.
-Print Assumptions C17_second_check.
-
-(* hence the strongest true restriction is an equivalence: the second check is clean iff no first-level
-   directory cascades (every one that has sub-directories keeps a file at or below it) *)
-Theorem C17_converges_partial : forall s, rows_unique s ->
-  (snd (check1 (fst (check1 s true)) false) = [] <->
-   forall d, In d (root_subs (tree s)) -> cascades (filenames s) d = false).
-Proof. exact second_check_clean_iff. Qed.
-Print Assumptions C17_converges_partial.
-
-(* hypotheses satisfiable by a damaged state: 9 warnings, then a clean second check *)
-Example C17_converges_partial_example :
-  rows_unique ok_state /\ (forall d, In d (root_subs (tree ok_state)) -> cascades (filenames ok_state) d = false)
-  /\ length (snd (check1 ok_state true)) = 9%nat /\ snd (check1 (fst (check1 ok_state true)) false) = [].
+(* the hypothesis is satisfiable by a damaged state: 9 warnings, then a clean second check *)
+Example C17_converges_example :
+  rows_unique ok_state /\ length (snd (check1 ok_state true)) = 9%nat /\ snd (check1 (fst (check1 ok_state true)) false) = [].
 Proof. exact ok_state_example. Qed.
 
-(* with os.removedirs instead of os.rmdir in the empty-directory repair the full statement holds *)
-Theorem C17_converges_with_removedirs : forall s, rows_unique s ->
-  snd (check_with FsRemovedirs (fst (check_with FsRemovedirs s true)) false) = [].
-Proof. exact second_check_patched. Qed.
-Print Assumptions C17_converges_with_removedirs.
+(* the former witness of D16 (an intact item, a stray file in 3/4/, an empty directory 5/6/): everything the
+   repair empties is gone, only the item's directories remain *)
+Theorem C17_converges_regression :
+  snd (check1 (fst (check1 d16_state true)) false) = []
+  /\ root_subs (tree (fst (check1 d16_state true))) =
+     [ {| d1_id := 1; d1_files := []; d1_subs := [ {| d2_id := 2; d2_files := [ {| f_id := 10; f_size := 10; f_db := false |} ] |} ] |} ].
+Proof. exact d16_second. Qed.
+Print Assumptions C17_converges_regression.
 
 (* FanoutCache.check = every shard checked once with the same fix flag, warnings concatenated in shard order *)
 Theorem C17_fanout : forall ss fx,
